@@ -124,6 +124,19 @@ Theorem C16_negation_same_digits_single_refuted :
 Proof. exact negation_same_digits_single_refuted. Qed.
 Print Assumptions C16_negation_same_digits_single_refuted.
 
+(* ... and with fixes/C16-D22neg.diff applied (model fmt_float_D22fix: the digit
+   count is taken on the text of |x|) the clause holds for SINGLE.  PARTIAL:
+   guarded by "the 7-digit rounding of x is not zero" (never the case for a
+   plain-form SINGLE, >= 1e-4; not proved) *)
+Theorem C16_negation_same_digits_single_after_fix_partial : forall m e,
+  0 < m -> round32 false m e false = FFin false m e ->
+  (exists m1 e1, single_rounded_fixed (FFin false m e) = FFin false m1 e1 /\ 0 < m1) ->
+  exists digits,
+    fmt_float_D22fix true (FFin false m e) = ch_space :: digits /\
+    fmt_float_D22fix true (FFin true m e) = ch_minus :: digits.
+Proof. exact negation_same_digits_single_fixed. Qed.
+Print Assumptions C16_negation_same_digits_single_after_fix_partial.
+
 (* SINGLE "at most 7 significant digits": refuted (D22): " 1.4999999621068127E-05" *)
 Theorem C16_single_seven_digits_refuted :
   exists x, to_single x = Some x /\
